@@ -128,3 +128,45 @@ func H_C02_many_classes() {
 	}
 	checkWellFormed(bs, exp)
 }
+
+// H_C02_second_message: the stream a reused encoder / serializer produces for its next one-shot call is just as
+// well-formed: ordinals and class-definition indexes start again from zero, whatever the earlier message held.
+func H_C02_second_message() {
+	in := &ZInner{N: vInt32("n"), S: "x"}
+	v := &ZRefHolder{A: in, B: in, L: []int32{7}}
+	_, nameMap := vExtractAll(v, []string{})
+	var first interface{}
+	switch vChoice("first", 4) {
+	case 0:
+		first = []string{}
+	case 1:
+		first = []interface{}{[]int32{}, nil, int32(1)}
+	case 2:
+		first = in
+	case 3:
+		first = &ZOuter{A: 1, In: ZInner{N: 2, S: "i"}, P: in}
+	}
+	var bs []byte
+	var err error
+	if vChoice("api", 2) == 0 {
+		e := NewEncoder(nil, nameMap)
+		_, err = e.Encode(first)
+		vAssert("first-noerr", err == nil)
+		bs, err = e.Encode(v)
+	} else {
+		s := NewSerializer(nil, nameMap)
+		_, err = s.ToBytes(first)
+		vAssert("first-noerr", err == nil)
+		bs, err = s.ToBytes(v)
+	}
+	vAssert("encode-noerr", err == nil)
+	b := newAVBuilder(nameMap)
+	o := b.ord()
+	a1 := b.zInnerP(v.A)
+	a2 := b.zInnerP(v.B)
+	l := b.list("[]int32", 1)
+	l.Items = append(l.Items, avInt(7))
+	exp := b.obj("ZRefHolder", []string{"a", "b", "l", "m"}, a1, a2, l, &AV{Kind: 'M', Ord: -1})
+	exp.Ord = o
+	checkWellFormed(bs, exp)
+}
